@@ -350,6 +350,32 @@ def run(ctx):
     falls_back = falls_back or any(o.kind == "arg" and o.arg == 2 and not o.proj for o in flow.origins(te, {"mv": {"l": 0}}))
     ctx.ob("C19.O4.take_err-falls-back-to-original", TAKE_ERR, falls_back,
            "", te.loc)
+    # the writer's own error is used *whenever* one was stored: the original error comes back only on the None side of the
+    # `take()`.  (Seed C19-1 handed the original back unless it was already a WriteFailure: a sink failure inside an
+    # include / super() surfaced as BadInclude / EvalBlock without the io::Error.)  Decided by taking the None edge of every
+    # switch on the taken Option away: no block that returns the parameter may stay reachable.
+    removed = set()
+    tested = False
+    for sb in sorted(te.reachable):
+        if te.term(sb)["k"] != "switch":
+            continue
+        cd = flow.cond_of(te, sb)
+        if cd.kind == "discr" and (cd.adt or "").endswith("option::Option") and any(
+                o.kind == "call" and o.call.name == "core::option::Option::take" for o in flow.origins(te, {"cp": cd.place})):
+            tested = True
+            t_ = te.term(sb)
+            listed = {v: x for v, x in t_["arms"]}
+            none_t = listed.get("0", t_["otherwise"] if "0" not in listed else None)
+            if none_t is not None:
+                removed.add((sb, none_t))
+    if tested:
+        reach = cfg.reach_from(te, 0, removed_edges=removed)
+        back = [bb for bb, i, st in te.all_stmts() if bb in reach and st["k"] == "assign" and st["place"] == {"l": 0}
+                and st["rv"]["k"] == "use" and any(o.kind == "arg" and o.arg == 2 and not o.proj for o in flow.origins(te, st["rv"]["op"]))]
+        ctx.ob("C19.O4.stored-io-error-is-always-used", TAKE_ERR, not back,
+               "take_err can hand the original error back although the writer's io::Error was stored (a condition on the "
+               "original's kind): the failure of the sink is then reported as another kind of error, without the writer's "
+               "error as its source", te.where(back[0]) if back else te.loc)
     # O5
     mc = "<minijinja::vm::macro_object::Macro as minijinja::value::object::Object>::call"
     if prog.has_fn(mc):
